@@ -189,10 +189,10 @@ def r4(ctx, rep):
     for n in walk(tk["body"]):
         if n.get("k") == "call" and last_seg(show(n["f"])) == "one_of" and n["a"] and isinstance(lit_val(n["a"][0]), str):
             starts |= set(lit_val(n["a"][0]))
-    mo = syn.fn("lexer::multi_char_operators", crate="prqlc_parser")
-    for n in walk(mo["body"]):
-        if n.get("k") == "call" and last_seg(show(n["f"])) == "just" and n["a"] and isinstance(lit_val(n["a"][0]), str):
-            starts.add(lit_val(n["a"][0])[:1])
+    import tables as _tables
+    mo, multi_ops = _tables.lexer_multi_char_ops(syn)
+    for spelling in multi_ops:
+        starts.add(spelling[:1])
     not_ending = sorted(c for c in starts - accepted if not (c.isalnum() or c == "_"))
     rep.check(len(starts) >= 15 and not not_ending, "accepts-token-starts",
               f"end_expr does not accept {''.join(not_ending)!r}: a keyword or `true`/`false`/`null` directly followed by one of these operator characters lexes as an identifier "
@@ -207,7 +207,9 @@ def r4(ctx, rep):
                 n_users += 1
     rep.check(n_users >= 5, "users", f"expected >= 5 uses of end_expr (keywords, booleans, null, value_and_unit, dates), found {n_users}")
     dt = syn.fn("lexer::date_token", crate="prqlc_parser")
-    rep.check(".rewind()" in show(tail_expr(dt["body"]), maxdepth=12), "date-lookahead", "the digit look-ahead after `@` must not consume the digit", file=dt["file"], line=dt["l"], fn=dt["path"])
+    # (wherever the sub-parser is bound: in the tail expression or in an intermediate `let`)
+    look = [n for n in walk(dt["body"]) if n.get("k") == "mcall" and n["m"] == "rewind" and "is_ascii_digit" in show(n["r"], maxdepth=10)]
+    rep.check(bool(look), "date-lookahead", "the digit look-ahead after `@` must not consume the digit", file=dt["file"], line=dt["l"], fn=dt["path"])
 
 
 def r5(ctx, rep):
